@@ -736,3 +736,64 @@ def rule_gi1(ctx):
             "(polys[:, :4], polys[0, 1:4]) selects vertices but keeps the "
             "old edges, which then no longer match the vertices",
             instance="__getitem__")
+
+
+# ---------------------------------------------------------------------------
+def rule_pt1(ctx, rels):
+    r = ctx.r
+    r.rule("PT1", "a function that splits the last (coordinate) axis with an "
+                  "end-complement slice `[..., :-1]` / `[..., 1:]` addresses "
+                  "the remaining coordinate with the complementary end index "
+                  "(-1 / 0), never with a fixed interior index: index 1 and "
+                  "index -1 coincide only in dimension 2")
+    n_f = 0
+    for rel in rels:
+        m = ctx.p.module_by_rel(rel)
+        for f in ctx.p.all_functions:
+            if f.module is not m or f.parent is not None:
+                continue
+            S = {}
+            C = {}
+            for n in ast.walk(f.node):
+                if not isinstance(n, ast.Subscript):
+                    continue
+                sl = n.slice
+                if not (isinstance(sl, ast.Tuple) and len(sl.elts) == 2
+                        and isinstance(sl.elts[0], ast.Constant)
+                        and sl.elts[0].value is Ellipsis):
+                    continue
+                li = sl.elts[1]
+                if isinstance(li, ast.Slice):
+                    S.setdefault(dotted(li), n)
+                else:
+                    v = const_value(li)
+                    if isinstance(v, int) and not isinstance(v, bool):
+                        C.setdefault(v, n)
+            ends = set(S) & {"1:", ":-1"}
+            if not ends:
+                continue
+            n_f += 1
+            r.analysed(f)
+            allowed = set()
+            if ":-1" in ends:
+                allowed.add(-1)
+            if "1:" in ends:
+                allowed.add(0)
+            bad = sorted(set(C) - allowed)
+            inst = f"{f.qualname}:last-axis"
+            if not bad:
+                r.ok("PT1", inst, loc(f, f.node), "",
+                     f"slices {sorted(ends)} with indices {sorted(C)}")
+            else:
+                n = C[bad[0]]
+                r.violation(
+                    "PT1", f"{f.fq}|index:{bad[0]}", loc(f, n),
+                    norm_stmt(_stmt_of(f, n))[:140],
+                    f"the last axis is split with {sorted(ends)} but a "
+                    f"coordinate is addressed with the fixed index "
+                    f"{bad[0]}: that is the complementary coordinate only in "
+                    "one particular dimension (2), so in higher dimensions "
+                    "the wrong coordinate is read / written (and dimension 1 "
+                    "raises IndexError)", instance=inst)
+    if n_f == 0:
+        r.note("PT1", ",".join(rels), "", "no end-complement slicing in scope")
